@@ -1,4 +1,4 @@
-(* C14 -- a TCPCL endpoint negotiates its session parameters correctly and keeps
+(* C14 -- a TCPCL endpoint negotiates its session settings correctly and keeps
    its keepalive and idle timers.  About the executable model Model/TcpclSess.v
    (s = run c ops: every configuration and every operation list).  The ties of
    the model's formulas (keepalive = min, initial segment size, clamp <= MRU)
@@ -8,7 +8,7 @@
    explicit extra hypothesis (suffix _partial), the counterexample being kept
    (suffix _refuted): a SESS_INIT whose node id does not decode (non-ASCII in the
    model = UnicodeDecodeError in merge_session_params) sets _in_sess and the peer
-   SESS_INIT but raises before the parameters are merged, so
+   SESS_INIT but raises before the negotiated values are merged, so
      - keepalive_time is not the minimum of the two SESS_INIT values
        (C14_keepalive_min_refuted), and
      - after a second such SESS_INIT the segment size exceeds the (new) peer MRU
